@@ -191,7 +191,9 @@ def compare_with_reference(case, ds, rd, ref, pv, W):
         want_fd = scale * (Mi @ c)
         # fitted_data is data - residual: it inherits the rounding of |matrix| @ |clp| (large clps cancel)
         mag = float((np.abs(Mi) @ np.abs(c)).max()) * abs(scale) * max(1.0, float(np.max(W)) / max(float(np.min(W)), 1e-300) if W is not None else 1.0)
-        rtol = T.lsq_tol(len(t), len(labels), max(mag, np.abs(want_fd).max(), 1.0), 1.0) * 10
+        # ... and matrix @ clp carries the forward error of the clps (eps * kappa of the solved problem): the residual of a
+        # QR solve is accurate, the clps of an ill-conditioned index are not
+        rtol = T.lsq_tol(len(t), len(labels), max(mag, np.abs(want_fd).max(), 1.0), min(kap, 1e8)) * 10
         if np.abs(fd - want_fd).max() > rtol:
             bad.append(("fitted", f"{label}: fitted_data at {gv} != dataset_scale * matrix @ clp (max {np.abs(fd - want_fd).max():.3e}, scale {scale})"))
             break
